@@ -60,7 +60,8 @@ func c12ElemText(t *rapid.T, o *OptInfo) string {
 		var key, val string
 		if kk == KString {
 			// keys per the property's quantifier: non-empty, no ':', no surrounding blanks
-			key = rapid.SampledFrom([]string{"k", "key", "a b", "é", "K2", "x=y", "semi;", "#h", "[b]", "q\"q"}).Draw(t, "mapKey")
+			key = rapid.SampledFrom([]string{"k", "key", "a b", "é", "K2", "x=y", "semi;", "#h", "[b]", "q\"q",
+				"\"lead", "\"", "\"both\"", "new\nline", "cr\rx", "tab\tx", "\x01ctl", "nul\x00", "\xff\xfe", "é\xffbad", "\u202ertl", "a\\b"}).Draw(t, "mapKey")
 		} else if kk == KFloat64 {
 			// (a NaN key can never be looked up again, not even by the program itself)
 			key = rapid.SampledFrom([]string{"1.5", "2", "0.25", "-3", "10", "1e3", "-0.5"}).Draw(t, "floatKey")
